@@ -10,28 +10,98 @@ Why(o, w) == CASE o.pan # "" -> "panic" [] o.l # w.l -> "layout|got=" \o o.l \o 
                [] o.min # w.min \/ o.max # w.max -> "box" [] OTHER -> "IsEmpty"
 Mix(gs) == LET ls == {gs[i].l : i \in DOMAIN gs} IN
            IF "XYZ" \in ls /\ "XYM" \in ls THEN "z+m" ELSE IF Cardinality(ls) > 1 THEN "mixed" ELSE "uniform"
+\* Bounds.Polygon ("returns b as a two-dimensional Polygon") of a non-empty box: one closed XY ring whose vertices are
+\* exactly the corners of the box (no vertex order is promised).  Empty boxes (also: an empty Z or M interval): no panic.
+PolyOK(p, w) ==
+  IF p.pan # "" THEN FALSE
+  ELSE IF IsEmptyBox(w) THEN TRUE
+  ELSE IF p.l # "XY" \/ Len(p.ends) # 1 \/ Len(p.fc) < 2 \/ Len(p.fc) % 2 # 0 THEN FALSE
+  ELSE LET n == Len(p.fc) \div 2 IN
+       /\ p.ends[1] = Len(p.fc)
+       /\ {<<p.fc[2 * j - 1], p.fc[2 * j]>> : j \in 1..n} = Corners(w)
+       /\ p.fc[1] = p.fc[2 * n - 1] /\ p.fc[2] = p.fc[2 * n]
+\* GeoJSON "bbox" of a geometry with coordinates: IF one is emitted it is all minima then all maxima of the tight box over
+\* a leading part of its dimensions (geojson drops M; whether Z / M are carried is not C08's business).  An encoding error
+\* (for instance +Inf in an empty dimension) and geometries without coordinates are accepted as they come.
+BBoxOK(o, w, has) ==
+  IF o.pan # "" THEN FALSE
+  ELSE IF o.err # "" \/ ~o.has \/ ~has THEN TRUE
+  ELSE \E n \in 2..Len(w.min) : o.bb = BBoxOf(w, n)
 VExtend(r) ==
   LET gs == r.case.gs
-      bad == {k \in DOMAIN r.steps : ~Same(r.steps[k], Tight(r.case.l0, SubSeq(gs, 1, k)))} IN
+      Upto(k) == LeavesAll(SubSeq(gs, 1, k))
+      bad == {k \in DOMAIN r.steps : ~Same(r.steps[k], Tight(r.case.l0, Upto(k)))} IN
   IF Len(r.steps) # Len(gs) THEN Bad("bounds|extend|short", 0)
   ELSE IF ~Same(r.init, Tight(r.case.l0, <<>>)) THEN Bad("bounds|NewBounds|" \o Why(r.init, Tight(r.case.l0, <<>>)), 0)
   ELSE IF bad # {} THEN LET k == FirstOf(bad) IN
-       Bad("bounds|extend|" \o Why(r.steps[k], Tight(r.case.l0, SubSeq(gs, 1, k))) \o "|" \o Mix(SubSeq(gs, 1, k)), k)
-  ELSE IF \E k \in DOMAIN r.own : ~Same(r.own[k], Tight(gs[k].l, <<gs[k]>>)) THEN Bad("bounds|geometry.Bounds()", 0)
+       Bad("bounds|extend|" \o Why(r.steps[k], Tight(r.case.l0, Upto(k))) \o "|" \o Mix(Upto(k))
+           \o (IF \E j \in 1..k : "gc" \in DOMAIN gs[j] THEN "|collection" ELSE ""), k)
+  ELSE IF \E k \in DOMAIN r.own : ~Same(r.own[k], Tight("No", Leaves(gs[k]))) THEN
+       LET k == FirstOf({k \in DOMAIN r.own : ~Same(r.own[k], Tight("No", Leaves(gs[k])))}) IN Bad("bounds|geometry.Bounds()|" \o r.tys[k], k)
+  ELSE IF ~PolyOK(r.poly, Tight(r.case.l0, Upto(Len(gs)))) THEN Bad("bounds|Polygon", 0)
   ELSE OK
 IsNested(t) == \E i \in DOMAIN t.gc : "gc" \in DOMAIN t.gc[i]
 VGc(r) ==
   LET lv == Leaves(r.case.t)  w == Tight("No", lv) IN
-  IF Same(r.b, w) THEN OK
-  ELSE Bad("bounds|GeometryCollection.Bounds|" \o Why(r.b, w) \o (IF IsNested(r.case.t) THEN "|nested" ELSE "|flat"), 0)
+  IF ~Same(r.b, w) THEN Bad("bounds|GeometryCollection.Bounds|" \o Why(r.b, w) \o (IF IsNested(r.case.t) THEN "|nested" ELSE "|flat"), 0)
+  ELSE IF ~PolyOK(r.poly, w) THEN Bad("bounds|Polygon", 0)
+  ELSE IF ~BBoxOK(r.bbox, w, HasCoords(lv)) THEN Bad("bounds|geojson-bbox|GeometryCollection", 0)
+  ELSE OK
+VGeo(r) ==
+  LET lv == Leaves(r.case.t)  w == Tight("No", lv) IN
+  IF ~Same(r.b, w) THEN Bad("bounds|geometry.Bounds()|" \o r.ty \o "|" \o Why(r.b, w), 0)
+  ELSE IF ~PolyOK(r.poly, w) THEN Bad("bounds|Polygon", 0)
+  ELSE IF ~BBoxOK(r.bbox, w, HasCoords(lv)) THEN Bad("bounds|geojson-bbox|" \o r.ty, 0)
+  ELSE IF ~BBoxOK(r.bbd, w, HasCoords(lv)) THEN Bad("bounds|geojson-bbox|max-decimal-digits|" \o r.ty, 0)
+  ELSE OK
+\* Set / SetCoords with a well-formed box (min <= max) REPLACE the box by exactly that box in the current layout; the
+\* Extend calls that follow give the tight box of the two corners and everything fed in afterwards
+VSet(r) ==
+  LET c == r.case  np == Len(c.pre)
+      lmid == Tight(c.l0, LeavesAll(c.pre)).l
+      ix == [d \in {"x", "y", "z", "m"} |-> CASE d = "x" -> 1 [] d = "y" -> 2 [] d = "z" -> 3 [] OTHER -> 4]
+      sg == [l |-> lmid, cs |-> <<[k \in DOMAIN Dims(lmid) |-> c.smin[ix[Dims(lmid)[k]]]], [k \in DOMAIN Dims(lmid) |-> c.smax[ix[Dims(lmid)[k]]]]>>]
+      Want(k) == IF k <= np THEN Tight(c.l0, LeavesAll(SubSeq(c.pre, 1, k)))
+                 ELSE Tight(lmid, <<sg>> \o LeavesAll(SubSeq(c.post, 1, k - np - 1)))
+      bad == {k \in DOMAIN r.steps : ~Same(r.steps[k], Want(k))} IN
+  IF Len(r.steps) # np + 1 + Len(c.post) THEN Bad("bounds|set|short", 0)
+  ELSE IF bad # {} THEN LET k == FirstOf(bad) IN
+       Bad("bounds|" \o (IF k <= np THEN "extend" ELSE IF k = np + 1 THEN c.op ELSE "extend-after-" \o c.op) \o "|" \o Why(r.steps[k], Want(k)), k)
+  ELSE IF ~PolyOK(r.poly, Want(Len(r.steps))) THEN Bad("bounds|Polygon", 0)
+  ELSE OK
+\* Overlaps(layout, b2) / OverlapsPoint(layout, p) "in layout": closed-interval arithmetic on the dimensions of the layout
+\* argument.  Strict when both boxes AGREE with the argument (same named dimensions at the same positions).  When a box only
+\* COVERS it (XYM asked of an XYZM box) the doc comment does not say whether dimensions go by position or by name: either
+\* answer is accepted.  When a box lacks a dimension of the argument nothing is specified: any outcome (also a panic).
 VOverlap(r) ==
-  LET n == Len(Dims(r.case.l))  b1 == r.case.b1  b2 == r.case.b2
-      badp == {k \in DOMAIN r.pts : r.pts[k].got # OverlapPt(n, b1.min, b1.max, r.pts[k].p)} IN
-  IF r.pan # "" THEN Bad("bounds|overlap|panic", 0)
-  ELSE IF r.ov # Overlap(n, b1.min, b1.max, b2.min, b2.max) THEN Bad("bounds|Overlaps", 0)
-  ELSE IF r.vo # Overlap(n, b2.min, b2.max, b1.min, b1.max) THEN Bad("bounds|Overlaps(swapped)", 0)
-  ELSE IF badp # {} THEN Bad("bounds|OverlapsPoint", FirstOf(badp))
-  ELSE IF r.e1 # IsEmptyBox([l |-> r.case.l, min |-> b1.min, max |-> b1.max]) THEN Bad("bounds|IsEmpty", 0)
+  LET c == r.case  n == Len(Dims(c.l))  b1 == c.b1  b2 == c.b2 IN
+  IF r.e1 # IsEmptyBox(b1) THEN Bad("bounds|IsEmpty", 0)
+  ELSE IF AgreesWith(c.l, b1.l) /\ AgreesWith(c.l, b2.l) THEN
+    IF r.pan # "" THEN Bad("bounds|overlap|panic", 0)
+    ELSE IF r.ov # Overlap(n, b1.min, b1.max, b2.min, b2.max) THEN Bad("bounds|Overlaps|" \o c.l \o (IF IsEmptyBox(b1) \/ IsEmptyBox(b2) THEN "|empty" ELSE ""), 0)
+    ELSE IF r.vo # Overlap(n, b2.min, b2.max, b1.min, b1.max) THEN Bad("bounds|Overlaps(swapped)|" \o c.l, 0)
+    ELSE OK
+  ELSE IF CoversL(c.l, b1.l) /\ CoversL(c.l, b2.l) THEN
+    LET pos == Overlap(n, b1.min, b1.max, b2.min, b2.max)
+        nam == Overlap(n, ByName(c.l, b1.l, b1.min), ByName(c.l, b1.l, b1.max), ByName(c.l, b2.l, b2.min), ByName(c.l, b2.l, b2.max)) IN
+    IF r.pan # "" THEN Bad("bounds|overlap|panic", 0)
+    ELSE IF r.ov \notin {pos, nam} \/ r.vo \notin {pos, nam} THEN Bad("bounds|Overlaps|neither-by-position-nor-by-name|" \o c.l, 0)
+    ELSE OK
+  ELSE OK
+VOvpt(r) ==
+  LET c == r.case  n == Len(Dims(c.l))  b == c.b
+      Pos(p) == OverlapPt(n, b.min, b.max, p)
+      Nam(p) == OverlapPt(n, ByName(c.l, b.l, b.min), ByName(c.l, b.l, b.max), p) IN
+  IF AgreesWith(c.l, b.l) THEN
+    LET badp == {k \in DOMAIN r.pts : r.pts[k].got # Pos(r.pts[k].p)} IN
+    IF r.pan # "" THEN Bad("bounds|OverlapsPoint|panic", 0)
+    ELSE IF badp # {} THEN Bad("bounds|OverlapsPoint|" \o c.l \o (IF IsEmptyBox(b) THEN "|empty" ELSE ""), FirstOf(badp))
+    ELSE OK
+  ELSE IF CoversL(c.l, b.l) THEN
+    LET badp == {k \in DOMAIN r.pts : r.pts[k].got \notin {Pos(r.pts[k].p), Nam(r.pts[k].p)}} IN
+    IF r.pan # "" THEN Bad("bounds|OverlapsPoint|panic", 0)
+    ELSE IF badp # {} THEN Bad("bounds|OverlapsPoint|neither-by-position-nor-by-name|" \o c.l, FirstOf(badp))
+    ELSE OK
   ELSE OK
 \* C16 for geom.Bounds and geom.Coord: the clone equals the original at clone time (and is the tight box of what was
 \* extended so far); extending / setting one of the two never shows through the other, in either order
@@ -49,7 +119,8 @@ VClone(r) ==
   ELSE OK
 Verdict(r) ==
   IF r.ev # "ok" THEN Bad("bounds|" \o r.ev, 0)
-  ELSE CASE r.case.fam = "extend" -> VExtend(r) [] r.case.fam = "gc" -> VGc(r) [] r.case.fam = "clone" -> VClone(r) [] OTHER -> VOverlap(r)
+  ELSE CASE r.case.fam = "extend" -> VExtend(r) [] r.case.fam = "gc" -> VGc(r) [] r.case.fam = "clone" -> VClone(r)
+         [] r.case.fam = "geo" -> VGeo(r) [] r.case.fam = "set" -> VSet(r) [] r.case.fam = "ovpt" -> VOvpt(r) [] OTHER -> VOverlap(r)
 VARIABLES i, bad
 Init == i = 1 /\ bad = 0
 Next == /\ i <= Len(Recs)
